@@ -280,6 +280,11 @@ def r6(ctx):
                 ctx.check(ok, "record:%s@%s:unconditional" % (var, name), "recorded on every non-error path through the arm (also when no response is produced)", body.where(c.idx), bad_detail="the %s arm of %s can complete without recording the request: a retransmitted no-response request (DIRECT_OPERATE_NR, FREEZE_NR...) is executed again" % (var, name))
 
 
+def r7(ctx):
+    """A request on a new connection is never a 'retransmission' of one received on the previous connection: see
+    engine.session_start_resets (last_valid_request is part of SessionState::reset)."""
+    session_start_resets(ctx)
+
 RULES = [
     ("C05.R1", "T2-region", "RepeatNonRead arms reach no handler / callback", r1),
     ("C05.R2", "T2", "Repeat* only under seq AND digest equality with the stored request", r2),
@@ -287,4 +292,5 @@ RULES = [
     ("C05.R4", "T3", "echo freshness: tx-buffer formatter -> next wait passes a last_valid_request update", r4),
     ("C05.R5", "T5/T8", "repeat_* rewrite only the header; unsolicited retry re-sends the same response", r5),
     ("C05.R6", "T8/T3", "what is remembered is the transmitted response, recorded for every executed request", r6),
+    ("C05.R7", "T2", "the remembered request is dropped before a session's first await (a pre-empted session is dropped without clean-up)", r7),
 ]
